@@ -5,3 +5,6 @@
 
 #[path = "daemon_server_stats.rs"]
 mod stats;
+
+#[path = "daemon_server_amp.rs"]
+mod amp;
